@@ -354,3 +354,72 @@ func (g *Graph) writtenBetween(obj types.Object, from, to int) bool {
 	}
 	return false
 }
+
+// failureWraps reports whether a non-nil error result of call leads only to returns whose error wraps
+// obj with %w (directly, or through the error variable after an assignment of such a wrapping value
+// on every path from the failure branch). Same statement-shape independence as failureReturnsError.
+func (f *Func) failureWraps(call *ast.CallExpr, obj types.Object) (bool, string) {
+	as, ok := f.ParentOf(call).(*ast.AssignStmt)
+	if !ok || len(as.Rhs) != 1 {
+		return false, "the call's error is not bound to a variable"
+	}
+	errObj := f.ObjOf(as.Lhs[len(as.Lhs)-1])
+	if errObj == nil {
+		return false, "the call's error is discarded"
+	}
+	g := f.Graph()
+	cv := g.VertexOf(call)
+	wrapsAt := func(v int, target types.Object) bool {
+		for _, w := range Writes(g.Node(v), false) {
+			if f.ObjOf(w.LHS) == target && w.RHS != nil && f.WrapsObj(w.RHS, obj) {
+				return true
+			}
+		}
+		return false
+	}
+	found := false
+	for _, ev := range g.condVertices() {
+		cond := g.node[ev-1].(ast.Expr)
+		if !g.Dominates(cv, ev-1) || g.writtenBetween(errObj, cv, ev-1) {
+			continue
+		}
+		for k := 0; k < 2; k++ {
+			var atoms []Atom
+			splitAtoms(cond, k == 0, &atoms)
+			says := false
+			for _, a := range atoms {
+				if AtomSaysNil(a, false, func(e ast.Expr) bool { return f.ObjOf(e) == errObj }) {
+					says = true
+				}
+			}
+			if !says {
+				continue
+			}
+			found = true
+			t := g.succ[ev][k]
+			// exits reachable from the failure edge without passing a wrapping assignment to the error variable
+			blocked := func(v int) bool { return g.node[v] != nil && wrapsAt(v, errObj) }
+			starts := []int{t}
+			if blocked(t) {
+				starts = nil
+			}
+			seen, _ := g.reach(starts, blocked, nil)
+			for _, x := range g.Exits {
+				if !seen[x] && !(len(starts) > 0 && x == t) {
+					continue
+				}
+				r, isR := g.node[x].(*ast.ReturnStmt)
+				if !isR || len(r.Results) == 0 {
+					return false, "a path from the failure branch falls off the function at " + f.At(g.node[x])
+				}
+				if !f.WrapsObj(r.Results[len(r.Results)-1], obj) {
+					return false, "the return at " + f.At(r) + " does not wrap it"
+				}
+			}
+		}
+	}
+	if !found {
+		return false, "no branch tests the call's error"
+	}
+	return true, ""
+}
